@@ -351,6 +351,10 @@ package server
 // C10 - "what is read back equals what was configured": the action type of an ext-community / large-community action
 // =============================================================================================
 //@ props C10
+//@ func communityActionTypeToAPI
+//@   pure
+//@   modifies nothing
+//@   ensures (o == oc.BGP_SET_COMMUNITY_OPTION_TYPE_ADD ==> result == api.CommunityAction_TYPE_ADD) && (o == oc.BGP_SET_COMMUNITY_OPTION_TYPE_REMOVE ==> result == api.CommunityAction_TYPE_REMOVE) && (o == oc.BGP_SET_COMMUNITY_OPTION_TYPE_REPLACE ==> result == api.CommunityAction_TYPE_REPLACE)
 // (closures 5 and 6 of toStatementApi build the ExtCommunity / LargeCommunity actions of the statement read back)
 //@ func toStatementApi$5
 //@   claims at-return
